@@ -3,6 +3,7 @@
 package core
 
 import (
+	"bytes"
 	"bufio"
 	"errors"
 	"os"
@@ -50,6 +51,12 @@ type c14Item struct {
 type c14Case struct {
 	N      int         `json:"N"` // EventBuffer = QueryBuffer
 	Phases [][]c14Item `json:"phases"`
+	// Cut[p] > 0: the life p ends in a crash that loses the end of the file: the
+	// snapshot is cut back into its last line (the buffered writer hands the OS
+	// chunks that do not end at line boundaries), by 1 + (Cut[p]-1) mod (length
+	// of that line) bytes. What the file then holds in complete lines is what
+	// was recorded before the restart.
+	Cut []int `json:"cut,omitempty"`
 }
 
 func genC14(t *rapid.T) c14Case {
@@ -80,6 +87,7 @@ func genC14(t *rapid.T) c14Case {
 			items = append(items[:at], append([]c14Item{fl}, items[at:]...)...)
 		}
 		c.Phases = append(c.Phases, items)
+		c.Cut = append(c.Cut, rapid.SampledFrom([]int{0, 0, 0, 1, 2, 3, 5, 9}).Draw(t, "cut"))
 	}
 	// after a flood that stops at the compacting message the next incarnation
 	// starts with the newest message of that flood again (recorded maximum + 0)
@@ -96,12 +104,19 @@ func genC14(t *rapid.T) c14Case {
 
 // c14Recorded parses the snapshot independently of the code under test.
 func c14Recorded(path string) (ev, q uint64, hasEv, hasQ bool, err error) {
-	f, err := os.Open(path)
+	data, err := os.ReadFile(path)
 	if err != nil {
 		return 0, 0, false, false, err
 	}
-	defer f.Close()
-	sc := bufio.NewScanner(f)
+	// only lines that are complete count: what follows the last newline is the
+	// beginning of a line a crash cut short, not a record
+	if i := bytes.LastIndexByte(data, '\n'); i >= 0 {
+		data = data[:i+1]
+	} else {
+		data = nil
+	}
+	sc := bufio.NewScanner(bytes.NewReader(data))
+	sc.Buffer(make([]byte, 0, 64*1024), 1<<20)
 	for sc.Scan() {
 		line := sc.Text()
 		switch {
@@ -147,6 +162,7 @@ func bodyC14(c c14Case, x *vkit.Ctx) {
 	hasEv, hasQ := false, false
 	ntEq, ntPlus1, oldSent, newSent, complete := false, false, 0, 0, true
 	floods, compactions, wentBack, lostRecord := 0, 0, false, false
+	crashCuts := 0
 	var phaseMaxDelivered [2]uint64
 
 	for pi, items := range c.Phases {
@@ -159,6 +175,7 @@ func bodyC14(c c14Case, x *vkit.Ctx) {
 			return errors.New("dial failed by harness")
 		}
 		defer close(release)
+		fileAtStart, _ := os.ReadFile(snap)
 		n, err := node.New(nw, node.Opts{Name: "n0", Quiet: true, Mutate: func(cf *serf.Config) {
 			cf.SnapshotPath = snap
 			cf.EventBuffer, cf.QueryBuffer = c.N, c.N
@@ -480,6 +497,31 @@ func bodyC14(c c14Case, x *vkit.Ctx) {
 			drained = sn.VerifBacklog() == 0
 		}
 		stop()
+		// (only a life that appended to the file it found, with no compaction: a
+		// compaction writes and syncs a whole new file before it renames it, so a
+		// crash cannot cut the tail off a compacted file)
+		if pi < len(c.Cut) && c.Cut[pi] > 0 && floods == floodsBefore {
+			if data, err := os.ReadFile(snap); err == nil && len(data) > 1 && data[len(data)-1] == '\n' && bytes.HasPrefix(data, fileAtStart) {
+				lastLine := len(data) - 1 - bytes.LastIndexByte(data[:len(data)-1], '\n') // length of the last line with its newline
+				if len(data)-lastLine < len(fileAtStart) {
+					lastLine = 0 // the last line is not one this life wrote
+				}
+				k := 0
+				if lastLine > 0 {
+					k = 1 + (c.Cut[pi]-1)%lastLine
+				}
+				if k == 0 {
+					goto nocut
+				}
+				if err := os.WriteFile(snap, data[:len(data)-k], 0o644); err != nil {
+					x.Inconclusive("cutting the snapshot: " + err.Error())
+					return
+				}
+				drained = false // the tail was lost: what was received is not all on record
+				crashCuts++
+			}
+		}
+	nocut:
 		if floods > floodsBefore {
 			if fi, err := os.Stat(snap); err == nil && fi.Size() < 100*1024 {
 				compactions++
@@ -541,6 +583,9 @@ func bodyC14(c c14Case, x *vkit.Ctx) {
 	}
 	if lostRecord {
 		x.Label("file-lacks-a-time-that-was-recorded")
+	}
+	if crashCuts > 0 {
+		x.Label("life-ended-in-a-crash-that-cut-the-last-line")
 	}
 	if floods > 0 {
 		x.Label("flood")
